@@ -103,9 +103,9 @@ theorem runN_skips (F : TOps) (clk : Nat → Nat) (k : Nat) :
 theorem unwind_spec (kind : ErrKind) (ac : Bool) (stack : List Frame) :
     (∀ h rest, unwind ac stack = (some h, rest) →
         deliverFlat kind ac stack = .caught h rest.length ∧ rest.length ≤ stack.length) ∧
-    (unwind ac stack = (none, []) → deliverFlat kind ac stack = .escaped) ∧
+    (unwind ac stack = (none, []) → deliverFlat kind ac stack = .escaped kind) ∧
     (∀ f below, unwind ac stack = (none, f :: below) →
-        deliverFlat kind ac stack = deliverFlat kind kind.allowCatch below ∧
+        deliverFlat kind ac stack = deliverFlat (f.cross kind) (f.cross kind).allowCatch below ∧
           below.length < stack.length) := by
   induction stack with
   | nil => simp [unwind, deliverFlat]
@@ -133,7 +133,7 @@ theorem deliver_eq_flat (fuel : Nat) :
     · rename_i f below _ heq
       have := hs.2.2 f below heq
       rw [this.1]
-      exact ih kind kind.allowCatch below (by omega)
+      exact ih _ _ below (by omega)
 
 theorem deliverTimeout_flat (stack : List Frame) : deliverTimeout stack = deliverFlat .timeout false stack :=
   deliver_eq_flat _ _ _ _ (by omega)
@@ -141,22 +141,30 @@ theorem deliverTimeout_flat (stack : List Frame) : deliverTimeout stack = delive
 theorem deliverError_flat (stack : List Frame) : deliverError stack = deliverFlat .other true stack :=
   deliver_eq_flat _ _ _ _ (by omega)
 
-/-- a timeout passes every frame of every entry -/
-theorem flat_timeout_escaped (stack : List Frame) : deliverFlat .timeout false stack = .escaped := by
+/-- a timeout passes every frame of every entry, as long as no native caller on the way replaces it
+by a string error -/
+theorem flat_timeout_escaped (stack : List Frame) (h : ∀ f ∈ stack, f.stringifies = false) :
+    deliverFlat .timeout false stack = .escaped .timeout := by
   induction stack with
   | nil => simp [deliverFlat]
-  | cons f rest ih => cases hb : f.barrier <;> simp [deliverFlat, hb, ErrKind.allowCatch, ih]
+  | cons f rest ih =>
+    have hf : f.stringifies = false := h f (by simp)
+    have hr := ih (fun g hg => h g (by simp [hg]))
+    cases hb : f.barrier <;> simp [deliverFlat, hb, Frame.cross, hf, ErrKind.allowCatch, hr]
+
+theorem cross_other (f : Frame) : f.cross .other = .other := by
+  unfold Frame.cross; split <;> rfl
 
 theorem flat_true_handler (stack : List Frame) :
     (∀ h, firstHandler stack = some h →
       ∃ n, deliverFlat .other true stack = .caught h n ∧ 0 < n ∧ n ≤ stack.length) ∧
-    (firstHandler stack = none → deliverFlat .other true stack = .escaped) := by
+    (firstHandler stack = none → deliverFlat .other true stack = .escaped .other) := by
   induction stack with
   | nil => simp [firstHandler, deliverFlat]
   | cons f rest ih =>
     cases hc : f.catches with
     | nil =>
-      cases hb : f.barrier <;> simp [firstHandler, deliverFlat, hc, hb, ErrKind.allowCatch] <;> grind
+      cases hb : f.barrier <;> simp [firstHandler, deliverFlat, hc, hb, ErrKind.allowCatch, cross_other] <;> grind
     | cons h hs => simp [firstHandler, deliverFlat, hc]
 
 /-! ### arithmetic behind `bounded_slack` -/
